@@ -781,16 +781,13 @@ theorem toRec_expected (r : Rec) (h : InRange r) (l1 l2 : Str) :
     rw [natStr_fullYear_drop cy hcy, ← q2]
 
 
-/-- **any orbit that can be written parses back to the same elements** (and, read the other way, **every numeric
-field is preserved to its printed precision**): for EVERY record `r` inside the ranges of the format — five-digit
-catalogue number, empty or full designator, signed/zero drag and ṅ terms with any one-digit exponent, e in [0,1),
-angles in [0,360), n < 100, element numbers 0–9999, revolution numbers 0–99999, every day of the years 1957–2056,
-with or without name line — `Tle.from_orbit` succeeds, the `Tle` it returns shows exactly the written lines, and
-reading that `Tle` back (`orbit()` followed by the writer's numeric prelude) gives `r` again, field for field. -/
-theorem parse_write_id (r : Rec) (h : InRange r) :
+/-- writing a record the writer can print, constructing the `Tle`, reading it back: the frame shared by `parse_write_id`
+(records inside the ranges: `r' = r`) and `wide_roundtrip` of `Props/C12Float.lean` (rounding carries: `r'` = `r` normalised) -/
+theorem roundtrip_aux (r : Rec) (h : WideRange r) (r' : Rec)
+    (ht : ∀ l1 l2, toRec { expected r l1 l2 with name := r.name } = .ok r') :
     ∃ p lines, writeRec r = .ok lines ∧ fromOrbit r = .ok p ∧ parseTle lines = .ok p ∧ tleStr p = lines ∧
-      toRec p = .ok r := by
-  obtain ⟨c1, c2, _, _, _, _, ok1, ok2, _, _, st1, st2, hw⟩ := writeRec_eq r h.wide
+      toRec p = .ok r' := by
+  obtain ⟨c1, c2, _, _, _, _, ok1, ok2, _, _, st1, st2, hw⟩ := writeRec_eq r h
   have hv : checkValidity [(chunks1 r).flatten ++ natStr c1, (chunks2 r).flatten ++ natStr c2] = .ok () := by
     rw [valid_iff]
     refine ⟨_, _, [], rfl, ?_, ?_, ?_⟩
@@ -803,8 +800,8 @@ theorem parse_write_id (r : Rec) (h : InRange r) :
       rcases hl with rfl | rfl
       · exact ok1
       · exact ok2
-  have hp := parse_written r h.wide c1 c2 hv st1 st2
-  have ht := toRec_expected r h ((chunks1 r).flatten ++ natStr c1) ((chunks2 r).flatten ++ natStr c2)
+  have hp := parse_written r h c1 c2 hv st1 st2
+  have ht := ht ((chunks1 r).flatten ++ natStr c1) ((chunks2 r).flatten ++ natStr c2)
   rcases h.name with hn | ⟨hne, hns, hn0⟩
   · -- two-line format
     have hemp : r.name.isEmpty = true := by rw [hn]; rfl
@@ -832,6 +829,18 @@ theorem parse_write_id (r : Rec) (h : InRange r) :
     · unfold fromOrbit; rw [hw]; exact hpt
     · show (if r.name.isEmpty then _ else _) = _
       rw [hemp]; rfl
+
+
+/-- **any orbit that can be written parses back to the same elements** (and, read the other way, **every numeric
+field is preserved to its printed precision**): for EVERY record `r` inside the ranges of the format — five-digit
+catalogue number, empty or full designator, signed/zero drag and ṅ terms with any one-digit exponent, e in [0,1),
+angles in [0,360), n < 100, element numbers 0–9999, revolution numbers 0–99999, every day of the years 1957–2056,
+with or without name line — `Tle.from_orbit` succeeds, the `Tle` it returns shows exactly the written lines, and
+reading that `Tle` back (`orbit()` followed by the writer's numeric prelude) gives `r` again, field for field. -/
+theorem parse_write_id (r : Rec) (h : InRange r) :
+    ∃ p lines, writeRec r = .ok lines ∧ fromOrbit r = .ok p ∧ parseTle lines = .ok p ∧ tleStr p = lines ∧
+      toRec p = .ok r :=
+  roundtrip_aux r h.wide r (toRec_expected r h)
 
 /-- **parsing a well-formed TLE and writing the resulting orbit back produces the identical lines, name line
 included**: for EVERY text the writer can produce from a record inside the ranges of the format (the canonical
